@@ -321,10 +321,20 @@ def check_history(case):
     pending = [present[i] for i in rng.permutation(len(present))]
     loaded = []
     first = pending[:min(case["initial"], len(pending))]
-    syst = lib("load", System, gro, *[itps[sp] for sp in first])
+    handles = []
+    gfh = None
+    if case["seed"] % 3 == 0:
+        # the coordinate file is handed over as an opened file (a documented input kind); the same handle then
+        # also backs the side Systems of the "lookalike" steps
+        gfh = open(gro)
+        handles.append(gfh)
+    side = []      # (an object built on an opened file closes that file when it is collected: side Systems are kept)
+    if gfh is not None:
+        syst = lib("load", lambda: System(gfh, *[itps[sp] for sp in first]))
+    else:
+        syst = lib("load", System, gro, *[itps[sp] for sp in first])
     loaded += first
     pending = pending[len(first):]
-    handles = []
     live = []
     walked_then_loaded = False
     walked = False
@@ -438,6 +448,19 @@ def check_history(case):
             elif kind == "lookalike":
                 # a topology with the residue signature of a loaded-or-loadable species but other atom names is refused
                 # and leaves the System as it was (error-then-continue)
+                if gfh is not None and (a + b) % 2:
+                    gfh.seek(0)
+                    other = lib("second-system", lambda: System(gfh, *[itps[sp] for sp in loaded]))
+                    side.append(other)
+                    for j in [x % n for x in (a, a + 1, b)] if n else []:
+                        if mol_view(lib("second-index", other.__getitem__, j)) != tuple(exp[j]):
+                            raise PropertyViolation("history-index", "%s, step %d: a second System on the same opened file "
+                                                    "gives a wrong molecule %d" % (label(), step, j), cls="history-shared-handle")
+                        if mol_view(lib("index", syst.__getitem__, (j + c) % n)) != tuple(exp[(j + c) % n]):
+                            raise PropertyViolation("history-index", "%s, step %d: System[%d] is wrong while a second System "
+                                                    "reads the same opened file" % (label(), step, (j + c) % n),
+                                                    cls="history-shared-handle")
+                    continue
                 cand = [sp for sp in present]
                 if not cand:
                     continue
